@@ -570,7 +570,7 @@ def check_C03(tier, replay=None):
 
 
 def check_C04(tier, replay=None):
-    return check_CR("C04", tier, "instance documents are rendered from Wire!ExpInfoset for every struct x plan in three prefix styles (generated prefixes, renamed prefixes, default namespace), read with yaserde::de::from_str in a compiled driver and re-serialised; TLC compares the re-serialised infoset with the instance; every plan-built value also goes through serialise-deserialise-serialise", CR_ASSUME)
+    return check_CR("C04", tier, "instance documents are rendered from Wire!ExpInfoset for every struct x plan in three prefix styles (generated prefixes, renamed prefixes, default namespace), read with yaserde::de::from_str in a compiled driver and re-serialised; TLC compares the re-serialised infoset with the instance; every plan-built value also goes through serialise-deserialise-serialise; plan wide puts values just outside i32 into members of the unbounded integer types", CR_ASSUME, known_devs=("D27",))
 
 
 def check_C05(tier, replay=None):
